@@ -59,6 +59,9 @@ def seeded_block() -> str:
         if sid in unin and ("-b-" in sid or "-c-" in sid):
             u = unin[sid]
             first = "caught" if u["property"] in u.get("caught_by", {}) else ("other check" if u.get("caught_by") else ("exit 2" if u.get("analysis_errors") else "missed"))
+        if meta.get("obsolete"):
+            out.append(f"| {sid} | {r['property']} | {re.sub(chr(10), ' ', meta.get('summary', ''))[:150].replace('|', '/')} | — (obsolete: {meta['obsolete'][:90]}) | | {first} |")
+            continue
         status = ", ".join(own) if own else ("does not apply" if not r.get("applies") else ("— (out of reach: " + meta.get("static_reach_reason", "")[:80] + ")" if meta.get("static_reach") else "**missed**"))
         summ = meta.get("summary", "")
         summ = re.sub(r"\s+", " ", summ)[:150].replace("|", "/")
